@@ -23,7 +23,7 @@ def tier_params(tier):
 
 
 def prepare(repo):
-    build.setup()
+    build.setup(repo)
 
 
 def gen_case(rng, params, index):
